@@ -222,7 +222,16 @@ func (t *Transaction) With(name string, readOnly bool, createFn func() (Cachable
 				 * with different storage transactions cannot share it at the
 				 * same time: one would read through the bucket of the other,
 				 * which may already be closed. */
-				if existingCache.mu.TryLock() {
+				gotLock := existingCache.mu.TryLock()
+				if gotLock && t.manager.generation.Load() != t.startGeneration {
+					/* A writer committed between our check at the top and the
+					 * moment we got the lock (it bumps the generation before
+					 * it releases the cache), the cache is now ahead of our
+					 * storage snapshot. */
+					existingCache.mu.Unlock()
+					gotLock = false
+				}
+				if gotLock {
 					defer existingCache.mu.Unlock()
 				} else {
 					// We couldn't get the lock, so we'll use a clean cold cache to
@@ -304,6 +313,13 @@ func (t *Transaction) With(name string, readOnly bool, createFn func() (Cachable
 			return fmt.Errorf("error while executing cache operation: %w", err)
 		}
 		return nil
+	}
+	if readOnly && t.manager.generation.Load() != t.startGeneration {
+		// Same as above, but we are about to publish a cache built from our
+		// older snapshot. Writers bump the generation under the manager lock
+		// we are holding, so this check cannot be overtaken.
+		t.manager.mu.Unlock()
+		return t.withColdCache(createFn, f)
 	}
 	log.Debug().Str("name", name).Bool("readOnly", readOnly).Msg("Creating new cache")
 	freshCachable, err := createFn()
